@@ -85,6 +85,7 @@ package wtxmgr
 //@   property C12 C01
 //@   requires wf: ns != nil && select(DBlive, B_MC(ns))
 //@   ensures nil_iff_absent: (v == nil) == !HAS(B_MC(ns), old(bytes(k)))
+//@   ensures value: v != nil ==> bytes(v) == VAL(B_MC(ns), old(bytes(k)))
 //@   ensures db_unchanged: DB_UNCHANGED()
 
 //@ func existsRawUnspent(ns, k) (credKey)
@@ -149,7 +150,64 @@ package wtxmgr
 //@   ensures ns_frame: forall id Int :: {select(DBhas, id)} {select(DBval, id)} {select(DBlive, id)} id != bid(ns) && !under(id, bid(ns)) ==>
 //@       select(DBhas, id) == select(old(DBhas), id) && select(DBval, id) == select(old(DBval), id) && select(DBlive, id) == select(old(DBlive), id)
 //@   ensures bytes_frame: forall o Int :: {select(@M(uint8), o)} oldalloc(o) ==> select(@M(uint8), o) == select(old(@M(uint8)), o)
+// environment of every store operation: the namespace was created by
+// createStore (all standard buckets exist), a record's output count fits the
+// index type (the operations that walk unmined-input lists additionally
+// require those lists to hold whole 32-byte hashes, INV_MI, below). These are
+// preconditions (assumptions at the public entry points, proved at every
+// internal call) and are kept by every operation.
+//@   requires store_wf: NS_ALL(ns)
+//@   ensures store_wf_kept: NS_ALL(ns)
+//@   loopinv store_wf_inv: NS_ALL(ns)
+//@   requires rec_fits: rec != nil && len(rec.MsgTx.TxOut) <= 4294967295
 //@   loopinv no_new_fault: wfault ==> old(wfault)
 //@   loopinv bytes_frame_inv: forall o Int :: {select(@M(uint8), o)} oldalloc(o) ==> select(@M(uint8), o) == select(old(@M(uint8)), o)
 //@   loopinv ns_frame_inv: forall id Int :: {select(DBhas, id)} {select(DBval, id)} {select(DBlive, id)} id != bid(ns) && !under(id, bid(ns)) ==>
 //@       select(DBhas, id) == select(old(DBhas), id) && select(DBval, id) == select(old(DBval), id) && select(DBlive, id) == select(old(DBlive), id)
+
+// functions that run before / outside a fully created store opt out of the
+// store-environment clauses of the template above
+//@ func putVersion(ns, version) (err)
+//@   property C10
+//@   opt noauto store_wf store_wf_kept
+//@ func (*MigrationManager).SetVersion(m, ns, version) (err)
+//@   property C10
+//@   opt noauto store_wf store_wf_kept
+//@ func deleteBuckets(ns) (err)
+//@   property C10
+//@   opt noauto store_wf_kept store_wf_inv
+//@ func createBuckets(ns) (err)
+//@   property C10
+//@   opt noauto store_wf
+//@ func createStore(ns) (err)
+//@   property C10
+//@   opt noauto store_wf
+//@ func (*Store).InsertTxCheckIfExists(s, ns, rec, block) (exists, err)
+//@   property C10
+//@   requires args: s != nil
+//@   requires mi_wf: INV_MI(ns)
+//@ func (*Store).InsertTx(s, ns, rec, block) (err)
+//@   property C10
+//@   requires args: s != nil
+//@   requires mi_wf: INV_MI(ns)
+//@ func (*Store).RemoveUnminedTx(s, ns, rec) (err)
+//@   property C10
+//@   requires mi_wf: INV_MI(ns)
+//@ func (*Store).insertMemPoolTx(s, ns, rec) (err)
+//@   property C10
+//@   requires mi_wf: INV_MI(ns)
+//@ func (*Store).rollback(s, ns, height) (err)
+//@   property C10
+//@   requires mi_wf: INV_MI(ns)
+//@ func (*Store).Rollback(s, ns, height) (err)
+//@   property C10
+//@   requires mi_wf: INV_MI(ns)
+//@ func putTxRecord(ns, rec, block) (err)
+//@   property C10
+//@   requires args: block != nil
+//@ func deleteTxRecord(ns, txHash, block) (err)
+//@   property C10
+//@   requires args: txHash != nil && block != nil
+//@ func putRawUnminedInput(ns, k, v) (err)
+//@   property C10
+//@   requires hash: len(v) == 32
